@@ -204,6 +204,13 @@ func body(s *simrt.Sim, tier string) {
 		a := c.StartAgent(ai + 1)
 		_ = a
 	}
+	// Workload variant (out of band): slow links, so that downloads last for
+	// several announce rounds and removals, reloads and stops land in the middle
+	// of transfers, with other peers dialling in meanwhile.
+	if (s.Tape.Variant/28)%2 == 1 {
+		c.NW.MaxLatency = time.Duration(20+tp.Draw(180)) * time.Millisecond
+		s.Probe("slow_links")
+	}
 	// Workload variant (out of band): a piece writer of one agent is stalled
 	// inside agentstorage.(*Torrent).WritePiece — a slow disk — for 1-20 s, at a
 	// drawn scheduling point of that function (site-armed pause).
@@ -220,10 +227,17 @@ func body(s *simrt.Sim, tier string) {
 	// shutdown races with the asynchronous completion notice.
 	variant := s.Tape.Variant
 	stopRace := variant%3 == 1
-	if stopRace {
+	// ... and in another third the scheduler of an agent is reloaded in the
+	// middle of a transfer (when half of the pieces of a blob have arrived):
+	// the partial torrent stays on disk without a torrent control, other peers
+	// may dial in for it first, and the client asks for the blob again a little
+	// later.
+	midReload := variant%3 == 2
+	if stopRace || midReload {
 		raceRemoval = true
 	}
 	trigger := make(chan [2]int, 64)
+	extra := 0 // Download calls issued by the triggers, on top of the clients' nCalls
 	if raceRemoval {
 		seen := map[[2]int]int{}
 		for ai, a := range c.Agents {
@@ -236,6 +250,15 @@ func body(s *simrt.Sim, tier string) {
 					if infoHashOf(s, w, bi).String() == ev.Torrent {
 						k := [2]int{ai, bi}
 						seen[k]++
+						if midReload {
+							if seen[k] == 1+mi[bi]/2 {
+								select {
+								case trigger <- k:
+								default:
+								}
+							}
+							continue
+						}
 						if seen[k] == mi[bi] {
 							select {
 							case trigger <- k:
@@ -249,6 +272,22 @@ func body(s *simrt.Sim, tier string) {
 		simrt.Go(func() {
 			for {
 				k := simrt.Recv(trigger)
+				if midReload {
+					if _, done := w.stopped[k[0]]; !done {
+						w.stopped[k[0]] = s.NextSeq()
+						a, ai, bi := c.Agents[k[0]], k[0], k[1]
+						s.Probe("reload_mid_transfer")
+						s.Logf("Reload agent%d in the middle of blob%d", ai+1, bi)
+						s.GoNode(a.Node, "reload", func() { a.Sched.Reload(sc) })
+						extra++
+						delay := time.Duration(500+tp.Draw(4000)) * time.Millisecond
+						s.GoNode(a.Node, "client", func() {
+							simrt.Sleep(delay)
+							w.download(ai, bi)
+						})
+					}
+					continue
+				}
 				if stopRace {
 					if _, done := w.stopped[k[0]]; !done {
 						w.stopped[k[0]] = s.NextSeq()
@@ -346,7 +385,7 @@ func body(s *simrt.Sim, tier string) {
 	// A call in flight either completes (seeder reachable again) or hits the
 	// leecher idle limit; clients may still issue their remaining calls.
 	cycle := sc.LeecherTTI + sc.ConnTTI + 2*sc.PreemptionInterval + sc.ConnState.BlacklistDuration + 2*p.AnnounceInterval + 4*time.Second + 35*time.Second + 60*time.Second /*http client timeout*/
-	bound := 4 * cycle * time.Duration(1+nCalls)
+	bound := 4 * cycle * time.Duration(3+nCalls)
 	deadline := tStop + bound
 	for {
 		open := 0
@@ -355,7 +394,7 @@ func body(s *simrt.Sim, tier string) {
 				open++
 			}
 		}
-		if open == 0 && len(w.calls) == nCalls {
+		if open == 0 && len(w.calls) == nCalls+extra {
 			break
 		}
 		if s.Now() >= deadline {
